@@ -1,7 +1,7 @@
 SPECIFICATION Spec
 CONSTANTS
   Unchecked = {}
-  FullStar = FALSE
+  FullStar = TRUE
   MutEach = FALSE
   NoBodyAfterError = TRUE
   Roles = {"leader"}
